@@ -160,7 +160,51 @@ def case_spm_filter(T, cfg):
     T.eq('filtered = Y - X0 (X0\' Y) per run', out, want, key=key)
 
 
-CASES = dict(bids=case_bids, mne_name=case_mne_name, epochs=case_epochs, spm_filter=case_spm_filter)
+def case_design(T, cfg):
+    """HRF design matrix: one range-normalised, centred column per condition plus flagged confound columns
+    (symbolic confound values; confound columns with missing values are dropped), dof = volumes - columns"""
+    import pandas
+    import rsatoolbox.io.fmriprep as fp
+    n_vols, tr = cfg['n_vols'], cfg['tr']
+    events = pandas.DataFrame(dict(onset=cfg['onsets'], duration=[cfg['dur']] * len(cfg['onsets']),
+                                   trial_type=cfg['types']))
+    cols = {}
+    sym = {}
+    for name, kind in cfg['confounds']:
+        if kind == 'sym':
+            v = T.arr('cf_' + name, (n_vols,))
+            sym[name] = v
+            cols[name] = list(v.copy())
+        elif kind == 'nanfirst':
+            v = T.arr('cf_' + name, (n_vols,))
+            cols[name] = [np.nan] + list(v.copy())[1:]
+    conf = pandas.DataFrame(cols) if cols else None
+    dm, mask, dof = fp.make_design_matrix(events, tr, n_vols, conf)
+    key = 'C20:design'
+    n_cond = len(dict.fromkeys(cfg['types']))
+    kept = [name for name, kind in cfg['confounds'] if kind == 'sym']
+    T.concrete('shape', tuple(dm.shape) == (n_vols, n_cond + len(kept)), str(dm.shape), key=key)
+    T.concrete('one flag per column: conditions True, confounds False',
+               [bool(x) for x in mask] == [True] * n_cond + [False] * len(kept), str(list(mask)), key=key)
+    T.concrete('dof = volumes - columns', dof == n_vols - (n_cond + len(kept)), str(dof), key=key)
+    for c in range(n_cond):
+        col = [float(x) for x in dm[:, c]]
+        T.concrete(f'condition column {c} centred and range-normalised',
+                   abs(sum(col)) < 1e-9 and abs((max(col) - min(col)) - 1) < 1e-9, str(col), key=key)
+    for k, name in enumerate(kept):
+        v = list(sym[name])
+        lo, hi = v[0], v[0]
+        for x in v[1:]:
+            if bool(x < lo):
+                lo = x
+            if bool(x > hi):
+                hi = x
+        T.assume(hi > lo)
+        m = total(v) / n_vols
+        T.eq(f'confound column {name} centred and range-normalised', dm[:, n_cond + k], [(x - m) / (hi - lo) for x in v], key=key)
+
+
+CASES = dict(design=case_design, bids=case_bids, mne_name=case_mne_name, epochs=case_epochs, spm_filter=case_spm_filter)
 MAX_PATHS = dict(quick=200, thorough=2000)
 NPROC = 6       # z3's string solver slows down disproportionately when all 16 cores are busy
 
@@ -177,6 +221,11 @@ def configs(tier):
     for r in range(4):
         for present in itertools.combinations(['ses', 'task', 'run'], r):
             out.append(dict(case='mne_name', present=['sub'] + list(present)))
+    out.append(dict(case='design', n_vols=4, tr=2.0, onsets=[0.0, 2.0], dur=2.0, types=['a', 'b'],
+                    confounds=[['x', 'sym'], ['dx', 'nanfirst']]))
+    out.append(dict(case='design', n_vols=4, tr=2.0, onsets=[0.0, 2.0, 4.0], dur=2.0, types=['a', 'b', 'a'],
+                    confounds=[['dx', 'nanfirst'], ['x', 'sym'], ['y', 'sym']] if not quick else [['dx', 'nanfirst'], ['x', 'sym']]))
+    out.append(dict(case='design', n_vols=6, tr=2.0, onsets=[2.0, 6.0], dur=2.0, types=['a', 'b'], confounds=[]))
     out.append(dict(case='epochs', shape=[3, 2, 2], codes=[5, 1, 5]))
     out.append(dict(case='epochs', shape=[1, 1, 1], codes=[2]))
     out.append(dict(case='spm_filter', n_runs=2, n_scan=3, n_vox=2, n_reg=1))
